@@ -66,6 +66,7 @@ type FuncSpec struct {
 	Ghosts     []GhostVar    // auxiliary integer variables of the function (initialised at entry)
 	GhostUpds  []*GhostUpd   // assignments to them, anchored at a source line of the function body
 	Unreachable map[string]bool // cover names (return@<block>) that must be PROVED unreachable instead of probed for reachability
+	Uses       map[string]bool // `uses entryclosure, blockframe`: opt-in heap facts for the verification of this function (ext_crypto.go)
 }
 
 // GhostVar / GhostUpd: auxiliary (ghost) integer variables. They never influence the program, so adding them is sound;
@@ -127,7 +128,7 @@ func loadContracts(files []string) (*Contracts, error) {
 	return cs, nil
 }
 
-var clauseKeywords = []string{"rec", "trustpre", "noframe", "lockset", "assumes", "hint", "func", "assume", "spec", "lemma", "requires", "ensures", "panics", "modifies", "reads", "pure", "loop", "property", "inline", "noinline", "fresh", "opaque", "axiom", "package", "uninterp", "maypanic", "expectfail", "mode", "unroll", "unreachable", "ghost", "at"}
+var clauseKeywords = []string{"rec", "trustpre", "noframe", "lockset", "assumes", "hint", "func", "assume", "spec", "lemma", "requires", "ensures", "panics", "modifies", "reads", "pure", "loop", "property", "inline", "noinline", "fresh", "opaque", "axiom", "package", "uninterp", "maypanic", "expectfail", "mode", "unroll", "unreachable", "ghost", "at", "uses"}
 
 func startsClause(s string) bool {
 	for _, k := range clauseKeywords {
@@ -472,6 +473,19 @@ func (cs *Contracts) loadFile(path string) error {
 		case "lockset":
 			if cur != nil {
 				cur.Lockset = rest
+			}
+		case "uses":
+			// uses entryclosure, blockframe: opt-in facts assumed while verifying THIS function (see ext_crypto.go)
+			if cur != nil {
+				if cur.Uses == nil {
+					cur.Uses = map[string]bool{}
+				}
+				for _, f := range strings.FieldsFunc(rest, func(r rune) bool { return r == ',' || r == ' ' }) {
+					if f != "entryclosure" && f != "blockframe" {
+						return fail(fmt.Errorf("uses: unknown fact %q (entryclosure, blockframe)", f))
+					}
+					cur.Uses[f] = true
+				}
 			}
 		case "mode":
 			if cur != nil && rest == "bv64" {
